@@ -5,10 +5,10 @@ PID="$1"; l=$(echo "$PID" | tr 'C' 'c'); WT=/tmp/mut2-$l
 for k in 1 2 3; do
   [ -f "$WT/_out/m$k/patch.diff" ] || continue
   r=$(/verif/bin/mutant_check.sh "$WT" "$WT/_out/m$k/patch.diff" "$PID" quick 2>&1 | head -3 | tr '\n' ' ' | cut -c1-700)
-  echo "$PID-r2m$k CHECK: $r" >> /verif/work/round2.log
+  echo "$PID-${TAG:-r2m}$k CHECK: $r" >> /verif/work/round2.log
 done
 for k in 1 2 3; do
   [ -f "$WT/_out/m$k/patch.diff" ] || continue
-  /verif/bin/confirm_mutant.sh "$WT" m$k "$PID-r2m$k" "$PID" >> /verif/work/confirm-all.log 2>&1
+  /verif/bin/confirm_mutant.sh "$WT" m$k "$PID-${TAG:-r2m}$k" "$PID" >> /verif/work/confirm-all.log 2>&1
 done
 echo "$PID done" >> /verif/work/round2.log
